@@ -95,7 +95,8 @@ def main(argv):
     open(os.path.join(meta, 'dznpy-7.7.7.dist-info', 'RECORD'), 'w').write('')
     clock[1].update({'USER': 'alice', 'LOGNAME': 'alice', 'HOME': os.path.join(fsdir, 'home_alice'), 'HOSTNAME': 'build-17', 'SOURCE_DATE_EPOCH': '86400',
                      'PYTHONPATH': os.pathsep.join([meta, os.path.join(REPO, 'src'), os.path.join(VERIF, 'harness')])})
-    clock[2].update({'USER': 'bob', 'HOME': '/nonexistent', 'SOURCE_DATE_EPOCH': '1700000000', 'COLUMNS': '40', 'TMPDIR': fsdir})
+    # ... and one of them answers every environment variable the library itself reads with a made-up value
+    clock[2].update({'VERIF_HOSTILE_ENV': '1', 'USER': 'bob', 'HOME': '/nonexistent', 'SOURCE_DATE_EPOCH': '1700000000', 'COLUMNS': '40', 'TMPDIR': fsdir})
     def env_words(e):
         return '{' + ', '.join(f'{a}={"<dir with dznpy-7.7.7.dist-info>:..." if a == "PYTHONPATH" else b}' for a, b in sorted(e.items())) + '}'
     for k, hs in enumerate(seeds):
